@@ -195,7 +195,7 @@ def run(F, rep):
     rep.check(bool(on1x) or bool(allp), 'C14.M1', 'loadComponent|math-namespace-rewrite', lc.where(), 'no namespace rewrite of 1.x math remains', '%d rewrite calls (%d on the 1.x path of loadComponent)' % (len(allp) + len(calls), len(on1x)))
 
     # ------------------------------------------------------------------ A: flags gathered over XML children
-    rep.rule('C14.A1', 'in parser.cpp a flag that is gathered over a loop of XML nodes and consulted afterwards is only ever raised inside the loop (an assignment `flag = <test of this node>` lets the LAST node decide: '
+    rep.rule('C14.A2', 'in parser.cpp a flag that is gathered over a loop of XML nodes and consulted afterwards is only ever raised inside the loop (an assignment `flag = <test of this node>` lets the LAST node decide: '
                        'a 1.x <group> with relationship_ref encapsulation followed by another relationship_ref is silently dropped); an assignment under a test of one attribute name is exempt, an element has at most one attribute of a name')
     from engines import accumulating_flags, enclosing_conditions as _encl
     n_a = 0
@@ -207,8 +207,41 @@ def run(F, rep):
             if not mono:
                 per_attr = any(br == 'then' and 'isType(' in render(cnd) for cnd, br, st in _encl(g, x) if any(y is st for y in walk(loop)) or True)
                 if per_attr:
-                    rep.exempt('C14.A1', '%s|%s' % (g.short.split('::')[-1], render(x)[:50]), 'assigned under a test of one attribute name (at most one such attribute per element)')
+                    rep.exempt('C14.A2', '%s|%s' % (g.short.split('::')[-1], render(x)[:50]), 'assigned under a test of one attribute name (at most one such attribute per element)')
                     continue
-            rep.check(mono, 'C14.A1', '%s|%s' % (g.short.split('::')[-1], render(x)[:50]), g.where(x), '%s: `%s` inside the loop lets the last XML node decide %s, which is consulted after the loop' % (g.short, render(x)[:60], v['n']), 'only raised')
+            rep.check(mono, 'C14.A2', '%s|%s' % (g.short.split('::')[-1], render(x)[:50]), g.where(x), '%s: `%s` inside the loop lets the last XML node decide %s, which is consulted after the loop' % (g.short, render(x)[:60], v['n']), 'only raised')
     if n_a < 15:
         raise AnalysisBroken('C14.A1: only %d accumulating flags found in parser.cpp (19 confirmed)' % n_a)
+
+    # ------------------------------------------------------------------ M2 / I1
+    rep.rule('C14.M2', 'the removal of the 1.x namespace declarations from a math element happens for EVERY math element of a 1.x document: the call depends on the 1.x mode and on the element being math only '
+                       '(math without a cn carries the declaration too and is otherwise rejected by the MathML validation of the transformed model)')
+    rm = [c for c in lc.walk() if c.get('k') == 'Call' and c.get('fn') == 'removeCellml1XNamespaces']
+    if not rm:
+        raise AnalysisBroken('loadComponent: removeCellml1XNamespaces call vanished')
+    for c in rm:
+        extra = []
+        for cn, tr in (ff(lc).conds_at(c) or []):
+            t = render(cn)
+            if is_1x(cn) or 'isMathmlElement("math")' in t or 'isCellmlElement(' in t or 'isCellml20Element(' in t or t.endswith('!= nullptr') or 'childNode' == t:
+                continue
+            extra.append((t, tr))
+        rep.check(not extra, 'C14.M2', 'loadComponent|removeCellml1XNamespaces', lc.where(c), 'the 1.x namespaces are removed only when %s' % ' and '.join('`%s` is %s' % e for e in extra)[:160], 'for every 1.x math element')
+
+    rep.rule('C14.I1', 'identifiers of 1.x documents (cmeta:id) are recognised wherever a loader that can run on a 1.x document reads an id: such loaders test id attributes through isIdAttribute(attribute, mParsing1XVersion), '
+                       'not through isType("id") - only elements that exist in 2.0 alone (reset children) may use the latter')
+    import xmlvocab
+    pa_, pe_ = xmlvocab.parser_vocab(F)
+    ONLY_20 = {'loadResetChild': 'test_value/reset_value exist in CellML 2.0 only', 'loadReset': 'reset exists in CellML 2.0 only'}
+    n_i = 0
+    for a in pa_:
+        if a['attr'] != 'id':
+            continue
+        n_i += 1
+        direct = a['site'].get('fn') == 'isType'
+        if direct and a['func'].name in ONLY_20:
+            rep.exempt('C14.I1', '%s|%s' % (a['func'].name, a['element']), ONLY_20[a['func'].name])
+            continue
+        rep.check(not direct, 'C14.I1', '%s|%s' % (a['func'].name, a['element']), a['func'].where(a['site']), '%s recognises the id of <%s> with isType("id"): the cmeta:id of a 1.x document is reported as an invalid attribute and lost' % (a['func'].short, a['element']), 'isIdAttribute')
+    if n_i < 10:
+        raise AnalysisBroken('C14.I1: only %d id-recognition sites (13 confirmed)' % n_i)
